@@ -16,7 +16,7 @@ ASSUMPTIONS = ["the functional helpers' documented uint8 default is respected: d
                "weights are positive integers; totals beyond 2^24 (weights of 10^6 and more) are compared at the single-precision resolution of the returned matrices"]
 EXHAUSTIVE = {"quick": ["all strings len<=3 over AB as A and B, 6 weight triples", "pdist layout for every m in 2..9"],
               "thorough": ["all strings len<=4 over AB as A and B, 14 weight triples", "all strings len<=3 over ABC, 6 weight triples", "pdist layout for every m in 2..14"]}
-REQUIRE = {"long_one_sided_calls": 22, "cdist_cells_checked": 2328, "pdist_entries_checked": 500, "asymmetric_weight_cases": 20, "sub_gt_ins_plus_del_cases": 5,
+REQUIRE = {"pdist_big_cases": 1, "huge_weight_cases": 2, "long_one_sided_calls": 22, "cdist_cells_checked": 2328, "pdist_entries_checked": 500, "asymmetric_weight_cases": 20, "sub_gt_ins_plus_del_cases": 4,
            "long_string_pairs": 5, "functional_pdist_cases": 10, "functional_cdist_cases": 10, "kwargs_forwarded_checked": 5,
            "float_callable_cases": 5, "squareform_roundtrips": 15, "default_metric_kwargs_cases": 5}
 SHARDS = {"quick": 4, "thorough": 16}
